@@ -267,7 +267,10 @@ class BaseGeo(BaseTransform):
         style = self.style  # triggers style creation
         if isinstance(val, dict):
             style.update(val)
-        elif not isinstance(val, self._style_class):
+        elif isinstance(val, self._style_class):
+            # take over the values of the given style object (a copy: the two styles stay independent)
+            style = val.copy()
+        else:
             raise ValueError(
                 f"Input parameter `style` must be of type {self._style_class}.\n"
                 f"Instead received type {type(val)}"
